@@ -616,10 +616,23 @@ func realtime() Case {
 	add(Op{K: "OSetNow", E: t0 + 1}, Out{K: "U"})
 	add(Op{K: "OPrune"}, Out{K: "U"})
 	add(Op{K: "HListDeny"}, lst("deny"))
+	if time.Now().After(time.Unix(t0+1, 900e6)) {
+		// the machine stalled past the observation window (the next second tick changes the answer): not judged
+		c.Kind = "realtime-discarded"
+		c.Ops, c.Outs = c.Ops[:3], c.Outs[:3]
+		return c
+	}
 	// at t0+2.6 the clock reads t0+2 > exp and at least one prune has run since the tick
+	// (a stalled prune loop gets up to 2.5 s more before the listing is recorded)
 	time.Sleep(time.Until(time.Unix(t0+2, 600e6)))
 	add(Op{K: "OSetNow", E: t0 + 2}, Out{K: "U"})
 	add(Op{K: "OPrune"}, Out{K: "U"})
+	for i := 0; i < 10; i++ {
+		if o := lst("deny"); o.K == "L" && len(o.L) <= 1 {
+			break
+		}
+		time.Sleep(250 * time.Millisecond)
+	}
 	add(Op{K: "HListDeny"}, lst("deny"))
 	add(Op{K: "HListAllow"}, lst("allow"))
 	_ = url.QueryEscape
